@@ -53,7 +53,8 @@ func WalkFiles(ctx context.Context, path string, watchPattern *regexp.Regexp, ou
 		if err != nil {
 			return nil
 		}
-		if info.IsDir() && skipdir.ShouldSkip(absPath) {
+		// The root is the directory that was asked for, whatever it is called.
+		if info.IsDir() && path != "." && skipdir.ShouldSkip(absPath) {
 			return filepath.SkipDir
 		}
 		if info.IsDir() {
